@@ -73,3 +73,9 @@ mod tests {
         }
     }
 }
+
+#[cfg(kani)]
+mod __verif {
+    use super::*;
+    include!(concat!(env!("ACTIX_VERIF_DIR"), "/hooks/actix_http__ws_mask.rs"));
+}
